@@ -334,8 +334,37 @@ def obs_compound(rng, big=False):
         # (the member files are not closed by the caller: the codec hands them to save_as_* open,
         # which closes them itself)
         out = RamStorage()
-        how = rng.choice(["compound", "files"])
-        if how == "compound":
+        how = rng.choice(["compound", "files", "compound-on-disk", "compound-on-disk"])
+        if how == "compound-on-disk":
+            # a real file read without a memory map, all members open at once and read a piece at a time in turn
+            # (every member is a window onto the one file handle they share)
+            import shutil
+            import tempfile
+            from whoosh.filedb.filestore import FileStorage
+            d = tempfile.mkdtemp(prefix="verif-c20-")
+            try:
+                st = FileStorage(d, supports_mmap=False)
+                f = st.create_file("c")
+                cw.save_as_compound(f)
+                cs = CompoundStorage(st.open_file("c"), use_mmap=False)
+                listed = sorted(cs.list())
+                lengths = [[n, cs.file_length(n)] for n in listed]
+                members = dict((n, cs.open_file(n)) for n in listed)
+                got = dict((n, bytearray()) for n in listed)
+                left = dict((n, cs.file_length(n)) for n in listed)
+                while any(left.values()):
+                    n = rng.choice([x for x in listed if left[x]])
+                    for _ in range(rng.randrange(1, 4)):        # some consecutive reads of one member
+                        k = min(left[n], rng.choice([1, 2, 3, 4, 7, 16, 100]))
+                        if not k:
+                            break
+                        got[n] += members[n].read(k)
+                        left[n] -= k
+                read = [[n, hx(bytes(got[n]))] for n in listed]
+                cs.close()
+            finally:
+                shutil.rmtree(d, ignore_errors=True)
+        elif how == "compound":
             f = out.create_file("c")
             cw.save_as_compound(f)
             cs = CompoundStorage(out.open_file("c"), use_mmap=False)
